@@ -9,6 +9,9 @@ and the verdict is printed.  What the monitor demands is described in `Spec/Netb
 namespace Percival.Driver.Netbufmon
 open Percival.Driver Percival.Spec.ByteStream Percival.Spec.NetbufMon
 
+/-- the pieces of `t` between the occurrences of the character `c` -/
+def splitCh (c : Char) (t : String) : List String := (t.split c).toList.map (·.copy)
+
 def parseHex64 (s : String) : Option UInt64 :=
   if s.length = 16 then
     s.toList.foldlM (fun (acc : Nat) c => (hexVal c).map fun v => acc * 16 + v) 0 |>.map UInt64.ofNat
@@ -19,20 +22,26 @@ def parseShown (t : String) : Option Shown :=
   if t = "-" then some .none
   else match t.toList with
     | '#' :: rest =>
-      match (String.ofList rest).splitOn ":" with
+      match splitCh ':' (String.ofList rest) with
       | [n, h] => do pure (.digest (← n.toNat?) (← parseHex64 h))
       | _ => none
     | _ => (bytesOfHex t).map .hex
 
 /-- `0:<a>:<shown>` or a status -/
 def parseRec (t : String) : Option Rec :=
-  match t.splitOn ":" with
+  match splitCh ':' t with
   | "0" :: a :: shownParts => do pure (.succ (← a.toNat?) (← parseShown (":".intercalate shownParts)))
   | [st] => st.toInt?.map .status
   | _ => none
 
+/-- the value of the token `t` if it is `<key>=<value>` -/
 def kv (t key : String) : Option String :=
-  if t.startsWith (key ++ "=") then some ((t.drop (key.length + 1)).toString) else none
+  let p := (key ++ "=").toList
+  if p.isPrefixOf t.toList then some (String.ofList (t.toList.drop p.length)) else none
+
+/-- the records of `r=`: `-` or records separated by `,` -/
+def parseRecs (r : String) : Option (List Rec) :=
+  if r = "-" then some [] else (splitCh ',' r).mapM parseRec
 
 def parseAns : List String → Ans
   | ["ok"] => .ok
@@ -43,10 +52,9 @@ def parseAns : List String → Ans
   | ["spin", r, f, p, a] =>
     match kv r "r", (kv f "f").bind String.toNat?, kv p "peer", (kv a "sa").bind String.toNat? with
     | some r, some fc, some p, some sa =>
-      match p.splitOn ":" with
+      match splitCh ':' p with
       | len :: shownParts =>
-        match len.toNat?, parseShown (":".intercalate shownParts),
-              (if r = "-" then some [] else (r.splitOn ",").mapM parseRec) with
+        match len.toNat?, parseShown (":".intercalate shownParts), parseRecs r with
         | some len, some sh, some recs => .spin recs fc len sh sa
         | _, _, _ => .other
       | _ => .other
